@@ -28,7 +28,8 @@ MANIFEST = {
             'in the graph function (Exception and BaseException subclasses, '
             'at a generated node), in input checks and in the writer, '
             'description reads, unit generators created outside any build '
-            'and barriers of 2-6 real threads building concurrently under a '
+            'and barriers of 2-6 real threads building (or reading '
+            'descriptions from definition bytes) concurrently under a '
             '1 microsecond switch interval. Every successful build must give '
             'exactly the bytes that four reference interpreters '
             '(PYTHONHASHSEED 0/1/2/12345, NRT and RT mode) give for the same '
@@ -246,9 +247,25 @@ def run_history(case, v):
             barrier = threading.Barrier(len(specs))
             old = sys.getswitchinterval()
 
+            # description readers: bytes come from the reference build
+            blobs = {}
+            for k, sp in enumerate(specs):
+                if sp.get('read'):
+                    r = reference(sp['gen'], sp['spec'])[0]
+                    if 'hex' in r:
+                        blobs[k] = bytes.fromhex(r['hex'])
+                    labels.add('concurrent_desc_read')
+
             def work(k):
                 try:
                     barrier.wait()
+                    if specs[k].get('read'):
+                        import io
+                        for _ in range(specs[k]['read']):
+                            if k in blobs:
+                                SynthDesc._read_stream(io.BytesIO(blobs[k]))
+                        results[k] = ('read', None)
+                        return
                     b = builder_for(specs[k])
                     results[k] = ('ok', b.build())
                 except BaseException as e:
@@ -268,6 +285,12 @@ def run_history(case, v):
             for k, sp in enumerate(specs):
                 kind, val = results[k]
                 fault = sp.get('fault')
+                if kind == 'read':
+                    continue
+                if sp.get('read'):
+                    v.fail('concurrent_desc_read_raised',
+                           f'{where} thread {k}: {val!r}')
+                    continue
                 if fault is not None:
                     if kind == 'ok':
                         v.fail('faulty_build_succeeded', f'{where} thread {k}')
@@ -310,6 +333,9 @@ def build_op(max_steps):
 
 def history_strategy(max_steps=10):
     b = build_op(max_steps)
+    reader = st.tuples(build_op(6), st.integers(1, 8)).map(
+        lambda t: {'op': 'build', 'gen': t[0]['gen'], 'spec': t[0]['spec'],
+                   'fault': None, 'read': t[1]})
     op = st.one_of(
         b, b, b,
         st.fixed_dictionaries({'op': st.just('desc'),
@@ -317,7 +343,8 @@ def history_strategy(max_steps=10):
         st.just({'op': 'outside'}),
         st.fixed_dictionaries({
             'op': st.just('threads'),
-            'specs': st.lists(b, min_size=2, max_size=6)}))
+            'specs': st.lists(st.one_of(b, b, reader), min_size=2,
+                              max_size=6)}))
     # repeat an earlier build now and then (same spec twice)
     def with_repeats(ops):
         out = list(ops)
